@@ -9,6 +9,12 @@ CHECKS = {
  "C14": ("exploration", "generated operation sequences over the documented operator alphabet with nested hostile operands, decode(encode(x)) compared with x; hand-rendered inline images checked for the decode-encode-decode fixpoint; all byte pairs enumerated",
          "trusted: CANON comparator; the hand renderer of inline images (ISO 32000-1 8.9.7)",
          "property-based testing (proptest), round-trip and fixpoint oracles, exhaustive byte-pair enumeration"),
+ "C03": ("exploration", "random documents x both xref formats x plain and chained incremental saves; an independent strict reader (own tokenizer, no recovery) must accept the bytes, account for every byte and recover exactly the saved objects",
+         "trusted: STRICT-R (written from ISO 32000-1 7.2-7.5, Appendix C of DESIGN.md) and CANON",
+         "property-based testing (proptest) with an independent strict reference reader as oracle"),
+ "C19": ("fault_enumeration", "per generated document every byte position of the output is enumerated as a failure point for three fault kinds (persistent error, persistent zero-length write, transient error) plus generated short-write/EINTR schedules; documents are sampled, positions are exhaustive",
+         "trusted: the fault-injecting Write sinks of the harness, STRICT-R and CANON for the validity of later saves",
+         "fault injection through the public Write parameter, exhaustive over byte positions; proptest-generated documents and chunking schedules"),
 }
 NA = {}
 def main():
